@@ -103,6 +103,7 @@ void side_read(Run& R, std::shared_ptr<Side> sd)
 			{ R.fail(fmt("cross-talk: byte %lld read on a socket is not byte %lld of its pair's stream (pair key %llu)", sd->got + (long long)i, sd->got + (long long)i, (unsigned long long)sd->peer_key)); return; }
 		}
 		sd->got += (long long)n;
+		R.tr(fmt("read stream=%llu n=%zu total=%lld", (unsigned long long)sd->peer_key, n, sd->got)); // instants and sizes: a NAT must not change segmentation or timing
 		if (sd->got > TAGLEN) { R.fail("more bytes arrived than the pair wrote"); return; }
 		side_read(R, sd);
 	});
@@ -541,8 +542,9 @@ rc::Gen<Case> gen_case(bool c13, int maxops)
 		rc::gen::map(kit::weighted({{2, 1}, {3, 10000}, {3, 45000}, {2, 120000}}), [](long long us) { return std::vector<Rec>{mk("adv", {us})}; }));
 	return rc::gen::map(rc::gen::tuple(kit::range(2, 5), rc::gen::container<std::vector<long long>>(kit::weighted({{4, 0}, {1, 1}, {2, 2}, {2, 3}})), kit::range(0, 31), kit::range(0, 1),
 		rc::gen::container<std::vector<std::vector<long long>>>(rc::gen::map(rc::gen::tuple(kit::range(0, 4), kit::range(0, 2), kit::range(0, 3)), [](std::tuple<long long, long long, long long> t) { return std::vector<long long>{std::get<0>(t), std::get<1>(t), std::get<2>(t)}; })),
-		rc::gen::container<std::vector<long long>>(kit::range(0, 4)), rc::gen::container<std::vector<std::vector<Rec>>>(op), kit::weighted({{2, 20000}, {1, 1000}, {1, 90000}})),
-		[c13, maxops](std::tuple<long long, std::vector<long long>, long long, long long, std::vector<std::vector<long long>>, std::vector<long long>, std::vector<std::vector<Rec>>, long long> t) {
+		rc::gen::container<std::vector<long long>>(kit::range(0, 4)), rc::gen::container<std::vector<std::vector<Rec>>>(op), kit::weighted({{2, 20000}, {1, 1000}, {1, 90000}}),
+		rc::gen::container<std::vector<std::vector<long long>>>(rc::gen::map(rc::gen::tuple(kit::range(0, 4), kit::range(0, 4), kit::weighted({{2, 600}, {1, 100}, {2, 1000}, {1, 1474}, {1, 3000}})), [](std::tuple<long long, long long, long long> t) { return std::vector<long long>{std::get<0>(t), std::get<1>(t), std::get<2>(t)}; }))),
+		[c13, maxops](std::tuple<long long, std::vector<long long>, long long, long long, std::vector<std::vector<long long>>, std::vector<long long>, std::vector<std::vector<Rec>>, long long, std::vector<std::vector<long long>>> t) {
 			Case c;
 			long long nn = std::get<0>(t);
 			auto const& fams = std::get<1>(t);
@@ -551,6 +553,8 @@ rc::Gen<Case> gen_case(bool c13, int maxops)
 			if (c13 && natmask == 0) natmask = 5;
 			for (long long i = 0; i < nn; ++i) if ((natmask >> i) & 1) c.recs.push_back(mk("nat", {i, std::get<3>(t) ? 0 : i % 2}));
 			c.recs.push_back(mk("qnet", {-1, -1, 0, std::get<7>(t), 0}));
+			// per-pair path MTUs (the fallback stays 1475): segment sizes then depend on which addresses the library asks about
+			{ auto const& ms = std::get<8>(t); for (std::size_t i = 0; i < ms.size() && i < 4; ++i) if (ms[i][0] != ms[i][1] && ms[i][0] < nn && ms[i][1] < nn) c.recs.push_back(mk("mtu", {ms[i][0], ms[i][1], ms[i][2]})); }
 			auto const& accs = std::get<4>(t);
 			for (int a = 0; a < MAXA; ++a)
 			{
